@@ -183,6 +183,15 @@ def iso_name(ctx):
     return obs
 
 
+def _int_const(ctx, fi, node):
+    """integer value of a constant expression (literal, arithmetic on literals, module/class constant), else None"""
+    try:
+        v = fold(node, ctx.m, ctx.m.modules[fi.module], fi.cls)
+    except NotConst:
+        return None
+    return v if isinstance(v, int) and not isinstance(v, bool) else None
+
+
 @rule('SA-GATE.joliet')
 @props('C09', 'C13')
 def joliet(ctx):
@@ -196,10 +205,10 @@ def joliet(ctx):
     for n in g.nodes:
         if n.kind == 'test' and isinstance(n.ast, ast.Compare) and len(n.ast.ops) == 1 and \
                 isinstance(n.ast.left, ast.Call) and isinstance(n.ast.left.func, ast.Name) and n.ast.left.func.id == 'len' and \
-                isinstance(n.ast.ops[0], (ast.Gt, ast.GtE)) and isinstance(n.ast.comparators[0], ast.Constant):
+                isinstance(n.ast.ops[0], (ast.Gt, ast.GtE)) and _int_const(ctx, fi, n.ast.comparators[0]) is not None:
             tb = [m for m, lab in n.succ if lab == 'T']
             if tb and tb[0].kind == 'stmt' and raises_class(tb[0].ast) == 'PyCdlibInvalidInput':
-                k = n.ast.comparators[0].value
+                k = _int_const(ctx, fi, n.ast.comparators[0])
                 limit = k if isinstance(n.ast.ops[0], ast.Gt) else k - 1
                 gate_node = n
     ok = gate_node is not None
